@@ -16,6 +16,7 @@
 -/
 import Proofs.CastInt
 import Proofs.LineInts
+import Proofs.GettersExact
 
 namespace Jl.C09
 open Jl Cast
@@ -217,5 +218,51 @@ theorem out_of_range_line_never_accepted (ext : Ext) (ti to : Tmpl) (line : Byte
     (hv : ¬ t.inRange v) (b : Bytes) :
     jlLine ⟨genTables, ext⟩ ti to line ≠ .ok (b, none) :=
   LineInts.out_of_range_not_accepted ext ti to line hti k ci hci hf t hty jv v hjv hlast hv b
+
+/-! ### The typed getters of a row (Proofs/GettersExact)
+
+`Row.GetInt8 … GetUint64` go through the same casters; the property read on them: the value when
+it fits the getter's type, the zero value otherwise, never a wrapped one. -/
+
+open Jl.GettersExact in
+/-- An integer getter on a cell carrying the integer `v` (a Go integer of any of the ten types,
+    canonical decimal text in a string or a json.Number): `v` when it fits, else 0. -/
+theorem getter_exact_or_zero (ext : Ext) (t : IntTy) (row : List (Bytes × Val)) (k : Bytes)
+    (raw : Dyn) (v : Int) (hk : (Value.lookup row k).map Cells.raw = some raw)
+    (hc : Carries raw v) :
+    Getters.typedGet ⟨genTables, ext⟩ (getterOfInt t) row k =
+      some (if t.inRange v then .ok (.int t v) else .ok (.int t 0)) :=
+  int_getter_exact_or_zero ext t row k raw v hk hc
+
+open Jl.GettersExact in
+/-- …and on a float64 of any bit pattern: the truncation when the value is finite and lies in
+    the type's range, else 0. -/
+theorem getter_float64 (ext : Ext) (t : IntTy) (b : Nat) (row : List (Bytes × Val)) (k : Bytes)
+    (hk : (Value.lookup row k).map Cells.raw = some (.f64 b)) :
+    Getters.typedGet ⟨genTables, ext⟩ (getterOfInt t) row k =
+      some (.ok (.int t (if FloatFits t (Float.toFVal Float.f64 b)
+                         then truncOf (Float.toFVal Float.f64 b) else 0))) :=
+  int_getter_float64 ext t b row k hk
+
+open Jl.GettersExact in
+/-- The oracle the correspondence check applies to the getters never fires on the regenerated
+    tables: whatever the cell holds (any Go value whose integers lie in their own type's range),
+    a non-zero answer of an integer getter is the carried value, in range. -/
+theorem getter_never_wraps (ext : Ext) (t : IntTy) (row : List (Bytes × Val)) (k : Bytes)
+    (raw : Dyn) (hk : (Value.lookup row k).map Cells.raw = some raw) (hraw : IntCarrierOK raw)
+    (r : Int) (hr : r ≠ 0)
+    (h : Getters.typedGet ⟨genTables, ext⟩ (getterOfInt t) row k = some (.ok (.int t r))) :
+    CastSpec.intCastViolation t raw (.ok (.int t r)) = none :=
+  int_getter_never_wraps ext t row k raw hk hraw r hr h
+
+/-- The contrast the documentation announces: on the row `{"v": 300}` `GetInt8` answers 0 while an
+    `int8` field filled by `MapTo` receives 44 (reflect's silent conversion). -/
+example :
+    Getters.typedGet ⟨genTables, Ext.empty⟩ "GetInt8"
+        [([0x76], .cell (.int .int 300) .auto .none)] [0x76] = some (.ok (.int .i8 0)) ∧
+    MapTo.mapTo genTables Ext.empty [([0x76], .cell (.int .int 300) .auto .none)]
+        (.pointerToStruct [⟨[0x56], .int .i8, true, .int .i8 7⟩]) =
+      .ok (.pointerToStruct [⟨[0x56], .int .i8, true, .int .i8 44⟩]) := by
+  refine ⟨by rfl, by rfl⟩
 
 end Jl.C09
